@@ -20,7 +20,7 @@ func TestWorker(t *testing.T) {
 		}
 		_ = json.Unmarshal(spec.Replay, &probe)
 		switch probe.Tier {
-		case "status", "fail", "tag":
+		case "status", "fail", "tag", "answlog":
 			var s shot
 			_ = json.Unmarshal(spec.Replay, &s)
 			err := runShot(s)
